@@ -10,7 +10,7 @@ RULE = ("cases: (parser, string) and (printer, size, SI); streams: every documen
         "documentation examples, powers of ten, leading zeros, 4300/4301 digits) x whitespace x letter case; calendar days "
         "around month ends, leap and century years, years 1 and 9999; a separate malformed stream (single-character edits of "
         "valid strings with ASCII and non-ASCII look-alikes, signs, fractions, underscores, trailing text, impossible days); "
-        "print-then-parse for the sizes 0..129 and 990..1039 (thorough: all of 0..4199), the 1000^k / 1024^k boundaries, rounding ties and random sizes up to 2^90. "
+        "every date case again under non-UTC local timezones (TZ + time.tzset: US Eastern, Japan, New Zealand; thorough adds India, US Pacific), directly and through tahoe.cfg; print-then-parse for the sizes 0..129 and 990..1039 (thorough: all of 0..4199), the 1000^k / 1024^k boundaries, rounding ties and random sizes up to 2^90. "
         "distinct = distinct (parser, string) or (size, SI); non-trivial = the parser accepts the string / the size is printed")
 META = {
     "title": "Configuration values parse to their documented meaning",
@@ -360,6 +360,7 @@ def run(ctx):
     ctx.correspondence("parsers-vs-model")
     ctx.correspondence("abbreviate_space-vs-model")
     ctx.correspondence("client-call-site")
+    ctx.correspondence("date-under-local-timezones")
     terms, info = [], []
 
     # corpus of fixed strings: the documentation's own examples and the published test answers
@@ -399,6 +400,7 @@ def run(ctx):
 
     print_then_parse(ctx, impl)
     call_site(ctx)
+    timezones(ctx, impl)
 
 
 # ---- abbreviate_space and print-then-parse ----
@@ -483,53 +485,68 @@ class _Recorder(Exception):
     pass
 
 
+class _ConfigPath(object):
+    """tahoe.cfg text -> _Client.get_anonymous_storage_server -> the keyword arguments StorageServer receives"""
+
+    def __enter__(self):
+        from allmydata import client as client_mod
+        self.client_mod = client_mod
+        self.captured = captured = {}
+
+        class FakeStorageServer(object):
+            name = "storage"
+
+            def __init__(self, storedir, nodeid, **kw):
+                captured.clear()
+                captured.update(kw)
+
+            def setServiceParent(self, parent):
+                pass
+
+        class FakeClient(object):
+            STOREDIR = "storage"
+            nodeid = b"n" * 20
+            stats_provider = None
+
+            def getServiceNamed(self, name):
+                raise KeyError(name)
+
+            def get_config(self, *a, **kw):
+                return self.config.get_config(*a, **kw)
+
+        self.FakeClient = FakeClient
+        self.real = client_mod.StorageServer
+        client_mod.StorageServer = FakeStorageServer
+        return self
+
+    def __exit__(self, *a):
+        self.client_mod.StorageServer = self.real
+
+    def kwargs(self, space, dur, date):
+        from allmydata import node
+        lines = ["[node]", "nickname = x", "[storage]", "enabled = true"]
+        if space is not None:
+            lines.append("reserved_space = " + space)
+        lines.append("expire.enabled = true")
+        lines.append("expire.mode = " + ("cutoff-date" if date is not None else "age"))
+        if dur is not None:
+            lines.append("expire.override_lease_duration = " + dur)
+        if date is not None:
+            lines.append("expire.cutoff_date = " + date)
+        cfg = node.config_from_string(ctx_scratch(), "portnum", "\n".join(lines) + "\n", self.client_mod._valid_config())
+        fake = self.FakeClient()
+        fake.config = cfg
+        return call(lambda: self.client_mod._Client.get_anonymous_storage_server(fake) and dict(self.captured))
+
+
 def call_site(ctx):
     """_Client.get_anonymous_storage_server reads the three settings from tahoe.cfg and hands the parsed values to StorageServer."""
-    from allmydata import client as client_mod
-    from allmydata import node
-    captured = {}
-
-    class FakeStorageServer(object):
-        name = "storage"
-
-        def __init__(self, storedir, nodeid, **kw):
-            captured.clear()
-            captured.update(kw)
-
-        def setServiceParent(self, parent):
-            pass
-
-    class FakeClient(object):
-        STOREDIR = "storage"
-        nodeid = b"n" * 20
-        stats_provider = None
-
-        def getServiceNamed(self, name):
-            raise KeyError(name)
-
-        def get_config(self, *a, **kw):
-            return self.config.get_config(*a, **kw)
-
     cases = [("100 M", "60 days", None), ("1024 Ki", "2mo", None), ("1048576 B", "3 month", None), ("5G", "12 months", None), ("", "2years", None),
              ("10000000000", "7days", None), (None, None, "2009-01-16"), ("1MiB", None, "2008-02-29"), ("1 BB", "7days", None), ("1G", "7 dayz", None),
              ("1G", None, "2009-02-30"), ("1G", None, "2009-01-16 10:20:30"), ("1.5G", None, None), ("1G", "5 \u017f", None), ("1k\u0131b", None, None)]
-    real = client_mod.StorageServer
-    client_mod.StorageServer = FakeStorageServer
-    try:
+    with _ConfigPath() as path:
         for i, (space, dur, date) in enumerate(cases):
-            lines = ["[node]", "nickname = x", "[storage]", "enabled = true"]
-            if space is not None:
-                lines.append("reserved_space = " + space)
-            lines.append("expire.enabled = true")
-            lines.append("expire.mode = " + ("cutoff-date" if date is not None else "age"))
-            if dur is not None:
-                lines.append("expire.override_lease_duration = " + dur)
-            if date is not None:
-                lines.append("expire.cutoff_date = " + date)
-            cfg = node.config_from_string(ctx_scratch(), "portnum", "\n".join(lines) + "\n", client_mod._valid_config())
-            fake = FakeClient()
-            fake.config = cfg
-            got = call(lambda: client_mod._Client.get_anonymous_storage_server(fake) and dict(captured))
+            got = path.kwargs(space, dur, date)
             want_space = ref_size(space) if space is not None else "unset"
             want_dur = ref_duration(dur) if dur is not None else "unset"
             want_date = ref_date(date) if date is not None else "unset"
@@ -547,9 +564,81 @@ def call_site(ctx):
             elif got[0] != "ValueError":
                 ctx.oracle_fail("client-storage-config-malformed-accepted", "tahoe.cfg with a malformed value %r was not rejected with ValueError: %r" % (case, got),
                                 case=case, expected="ValueError", observed=got)
-    finally:
-        client_mod.StorageServer = real
     ctx.trace(len(cases))
+
+
+# ---- the node's local timezone must not matter: "midnight UTC at the beginning of the given day" ----
+# POSIX TZ strings (no tzdata needed): west and east of Greenwich, with and without daylight saving, a half-hour zone
+TIMEZONES = ["EST5EDT,M3.2.0,M11.1.0", "JST-9", "NZST-12NZDT,M9.5.0,M4.1.0/3", "IST-5:30", "PST8PDT,M3.2.0,M11.1.0"]
+TZ_DATES = ["2009-01-16", "2008-02-02", "2007-12-25", "2009-03-08", "2009-03-09", "2009-11-01", "2009-07-04", "2008-02-29", "1970-01-01", "1969-12-31",
+            "2038-01-19", "2000-02-29", "0001-01-01", "9999-12-31"]
+
+
+class local_timezone(object):
+    """Run a block with the process's local timezone set to `tz` (os.environ['TZ'] + time.tzset()), restored afterwards."""
+
+    def __init__(self, tz):
+        self.tz = tz
+
+    def __enter__(self):
+        import os
+        import time
+        self.old = os.environ.get("TZ")
+        os.environ["TZ"] = self.tz
+        time.tzset()
+
+    def __exit__(self, *a):
+        import os
+        import time
+        if self.old is None:
+            os.environ.pop("TZ", None)
+        else:
+            os.environ["TZ"] = self.old
+        time.tzset()
+
+
+def tz_case(ctx, impl, path, tz, s, via_config):
+    """one date string under one local timezone, directly or through tahoe.cfg; the documented value does not depend on tz"""
+    import time
+    want = ref_date(s)
+    with local_timezone(tz):
+        offset = -time.localtime(0 if want is None else max(min(want, 2 ** 31), 0)).tm_gmtoff
+        if via_config:
+            r = path.kwargs(None, None, s)
+            got = ("ok", r[1].get("expiration_cutoff_date")) if r[0] == "ok" else r
+        else:
+            got = call(impl["date"], s)
+    fn = "date-tz-config" if via_config else "date-tz"
+    ctx.case((fn, tz, s) if got[0] == "ok" else None, kind=fn)
+    case = {"fn": fn, "tz": tz, "input": s}
+    what = ("expire.cutoff_date = %s in tahoe.cfg reaches the storage server" % s) if via_config else ("parse_date(%r)" % s)
+    if want is None:
+        if got[0] != "ValueError":
+            ctx.oracle_fail("date-malformed-accepted-under-timezone", "%s with the node's local timezone TZ=%s: %r instead of ValueError" % (what, tz, got),
+                            case=case, expected="ValueError", observed=got)
+    elif got != ("ok", want):
+        delta = (got[1] - want) if got[0] == "ok" and isinstance(got[1], int) else None
+        ctx.oracle_fail("date-depends-on-local-timezone",
+                        "%s as %r with the node's local timezone TZ=%s; the documented meaning is midnight UTC = %d%s" % (
+                            what, got[1] if got[0] == "ok" else got, tz, want,
+                            "" if delta is None else " (off by %+d s; the zone's offset from UTC that day is %+d s)" % (delta, offset)),
+                        case=case, expected={"tz": tz, "date": s, "utc_midnight": want}, observed={"tz": tz, "date": s, "got": got[1] if got[0] == "ok" else got})
+
+
+def timezones(ctx, impl):
+    n = 0
+    with _ConfigPath() as path:
+        for k, tz in enumerate(TIMEZONES if (ctx.tier == "thorough" or ctx.search) else TIMEZONES[:3]):
+            dates = list(TZ_DATES) + ["2009-02-30", "2009-01-16 10:20:30"]
+            for i in range(ctx.n(12, 150)):
+                dates.append(gen_date(ctx.rng("tz", k, i), malformed=(i % 6 == 5)))
+            for s in dates:
+                tz_case(ctx, impl, path, tz, s, via_config=False)
+                n += 1
+            for s in TZ_DATES[:6] + ["2009-02-30"]:
+                tz_case(ctx, impl, path, tz, s, via_config=True)
+                n += 1
+    ctx.trace(n)
 
 
 def ctx_scratch():
@@ -571,6 +660,16 @@ def replay(ctx, rec):
         out["documented"] = {"duration": ref_duration, "size": ref_size, "date": ref_date}[fn](s)
         model = {"duration": "parse_duration", "size": "parse_abbreviated_size", "date": "parse_date"}[fn]
         out["model"] = ctx.coq_eval(IMPORTS, "%s %s" % (model, cps(s)))[-200:]
+    elif fn in ("date-tz", "date-tz-config"):
+        with _ConfigPath() as path:
+            tz_case(ctx, impl, path, case["tz"], case["input"], via_config=(fn == "date-tz-config"))
+            with local_timezone(case["tz"]):
+                out["parse_date"] = call(impl["date"], case["input"])
+                out["through_tahoe_cfg"] = path.kwargs(None, None, case["input"])
+                out["through_tahoe_cfg"] = out["through_tahoe_cfg"][1].get("expiration_cutoff_date") if out["through_tahoe_cfg"][0] == "ok" else out["through_tahoe_cfg"]
+        out["tz"] = case["tz"]
+        out["documented_utc_midnight"] = ref_date(case["input"])
+        out["model"] = ctx.coq_eval(IMPORTS, "parse_date %s" % cps(case["input"]))[-200:]
     elif fn in ("space", "print-parse"):
         s, si = case["size"], case["si"]
         text = impl["space"](s, si)
